@@ -736,6 +736,11 @@ def _compile_config(
     # Uses dot-path keys to avoid collisions between
     # states with the same name at different hierarchy levels
     all_states_by_name: Dict[str, State] = {}
+    #: Dot path of every State object, and how many states share each name.
+    #: A Transition refers to State *objects*; where a name is reused at
+    #: another depth the bare name no longer identifies the object.
+    path_of: Dict[int, str] = {}
+    name_count: Dict[str, int] = defaultdict(int)
 
     def _register_states(
         state_list: List[State],
@@ -743,6 +748,8 @@ def _compile_config(
     ) -> None:
         for s in state_list:
             key = f"{prefix}.{s.name}" if prefix else s.name
+            path_of[id(s)] = key
+            name_count[s.name] += 1
             all_states_by_name[key] = s
             # Also register the bare name for transition
             # source lookups (backward compat)
@@ -814,26 +821,48 @@ def _compile_config(
         state_configs[s.name] = _compile_state(s, all_states_by_name)
 
     # ⚙️ Merge transitions into state configs
-    trans_by_source_event: Dict[str, Dict[str, List[Transition]]] = (
+    # 🏛️ Keyed by the source State OBJECT when it is part of this definition.
+    #    Keying by bare name merged a transition into every state that
+    #    happened to share its source's name, at any depth.
+    trans_by_source_event: Dict[Any, Dict[str, List[Transition]]] = (
         defaultdict(lambda: defaultdict(list))
     )
 
     for t in flat_transitions:
-        trans_by_source_event[t.source.name][t.event].append(t)
+        source_key: Any = (
+            id(t.source) if id(t.source) in path_of else t.source.name
+        )
+        trans_by_source_event[source_key][t.event].append(t)
+
+    def _target_ref(target: State) -> str:
+        # The bare name is what this API has always emitted; it stops being a
+        # reference to `target` once another state carries the same name.
+        if name_count.get(target.name, 0) > 1 and id(target) in path_of:
+            return f"#{machine_id}.{path_of[id(target)]}"
+        return target.name
 
     def _merge_transitions_into(
         state_name: str,
         state_config: Dict[str, Any],
+        state_obj: Optional[State] = None,
     ) -> None:
+        # Transitions whose source object belongs to this definition are
+        # found by identity; a source defined elsewhere is still matched by
+        # name, as before.
+        source_keys: List[Any] = []
+        if state_obj is not None and id(state_obj) in trans_by_source_event:
+            source_keys.append(id(state_obj))
         if state_name in trans_by_source_event:
+            source_keys.append(state_name)
+        for source_key in source_keys:
             if "on" not in state_config:
                 state_config["on"] = {}
-            for event, t_list in trans_by_source_event[state_name].items():
+            for event, t_list in trans_by_source_event[source_key].items():
                 compiled = []
                 for t in t_list:
                     entry: Dict[str, Any] = {}
                     if not t.internal and t.target is not None:
-                        entry["target"] = t.target.name
+                        entry["target"] = _target_ref(t.target)
                     if t.guard:
                         entry["guard"] = t.guard
                     if t.actions:
@@ -847,11 +876,17 @@ def _compile_config(
                     state_config["on"][event] = compiled
         # 📝 Recurse into child states
         if "states" in state_config:
+            children = {
+                c.name: c for c in (state_obj.states if state_obj else [])
+            }
             for child_name, child_config in state_config["states"].items():
-                _merge_transitions_into(child_name, child_config)
+                _merge_transitions_into(
+                    child_name, child_config, children.get(child_name)
+                )
 
+    top_level = {s.name: s for s in states}
     for sname, sconfig in state_configs.items():
-        _merge_transitions_into(sname, sconfig)
+        _merge_transitions_into(sname, sconfig, top_level.get(sname))
 
     # ⚙️ Assemble top-level config
     result: Dict[str, Any] = {
